@@ -45,7 +45,15 @@ def c14_a(ctx: Ctx):
             not_none = ("strategy is None", False) in facts
             if consulted and not_none:
                 args_ok = consulted[0].replace(" ", "").startswith("strategy(src,dst,")
-                if args_ok:
+                try:
+                    sc = ast.parse(consulted[0], mode="eval").body
+                    third = common.inline_at(ctx, fi, sc.args[2], c) if isinstance(sc, ast.Call) and len(sc.args) > 2 else None
+                except SyntaxError:
+                    third = None
+                if args_ok and third is not None and "subdir" not in names_in(third):
+                    out.append(ctx.viol(R, fi, c, f"the strategy is asked about `{canon(sc.args[2])}`, the bare file name, not the path relative to the job ({canon(third)[:40]}): for a conflict in a "
+                                        "sub-directory a path-dependent strategy (update, a predicate on the path) decides on the top-level file of the same name"))
+                elif args_ok:
                     out.append(ctx.ok(R, fi, c, f"a differing file is copied only when {consulted[0][:50]} is true"))
                 else:
                     out.append(ctx.viol(R, fi, c, f"the strategy is consulted as {consulted[0][:60]}, not as strategy(src, dst, <path>)"))
@@ -250,6 +258,30 @@ def c14_d(ctx: Ctx):
                             out.append(ctx.ok(R, fi, c, "restore copies the backup over the original", construct=k + "|direction"))
                         else:
                             out.append(ctx.viol(R, fi, c, "the 'restore' copies in the wrong direction", construct=k + "|direction"))
+    cb = ctx.fn("signac.sync:_FileModifyProxy.create_backup")
+    cfgb = ctx.cfg(cb)
+    ynodes = [n.id for n in cfgb.stmt_nodes() if n.kind == "stmt" and any(isinstance(x, ast.Yield) for x in walk_no_nested(n.ast))]
+    copies = {n.id for n in cfgb.stmt_nodes() if n.kind == "stmt" for c in walk_no_nested(n.ast) if isinstance(c, ast.Call) and isinstance(c.func, ast.Attribute)
+              and c.func.attr in ("_copy2", "_copy", "copy2", "copy") and len(c.args) == 2 and _is_tilde(ctx, cb, c.args[1]) and not _is_tilde(ctx, cb, c.args[0])}
+    for y in ynodes:
+        w = cfgb.must_pass_before(y, copies, kinds="n")
+        k = cb.qual + "|fresh-backup"
+        if w is None and copies:
+            out.append(ctx.ok(R, cb, cfgb.nodes[y].ast, "a fresh backup copy is made on every path to the yield", construct=k))
+        else:
+            out.append(ctx.viol(R, cb, cfgb.nodes[y].ast, "the body can run without a fresh backup having been written (e.g. a stale '~' file from an earlier failure is reused): the roll-back "
+                                "restores content that is not the pre-sync document", construct=k, witness=cfgb.describe_path(w) if w else None))
+    stale = [n for n in body_nodes(cb) if isinstance(n, ast.Raise)]
+    okstale = False
+    for r in stale:
+        facts = common.facts_at(ctx, cb, r, "n")
+        if any(pol and ("isfile(path_backup)" in t.replace("os.path.", "") or "exists(path_backup)" in t.replace("os.path.", "")) for (t, pol) in facts) \
+                or any(pol and "isfile(path + '~')" in t.replace("os.path.", "") for (t, pol) in facts):
+            okstale = True
+    if okstale:
+        out.append(ctx.ok(R, cb, stale[0], "an existing backup file makes create_backup refuse to start", construct=cb.qual + "|stale-backup"))
+    else:
+        out.append(ctx.info(R, cb, cb.node, "no refusal on an existing backup file", construct=cb.qual + "|stale-backup"))
     fi = ctx.fn("signac.sync:_FileModifyProxy.create_doc_backup")
     bk = [n for n in body_nodes(fi) if isinstance(n, ast.Assign) and any(isinstance(t, ast.Name) and t.id == "backup" for t in n.targets)]
     for b in bk:
